@@ -160,13 +160,22 @@ pub(crate) fn add_kc_output(
     if !outputs.contains(&osc) {
         outputs.push(osc);
     }
+    // The repeat lookup walks this list from the back and takes the first key that is down. The
+    // outputs of the key's overrides go in front of the key: while an override is active the key
+    // itself is not down and the lookup moves on to them; while it is not, the key is found first,
+    // also when an override's output happens to be held down by some other key.
+    let mut pos = outputs
+        .iter()
+        .position(|o| *o == osc)
+        .expect("pushed above if missing");
     for ov_osc in overrides
         .output_non_mods_for_input_non_mod(osc)
         .iter()
         .copied()
     {
         if !outputs.contains(&ov_osc) {
-            outputs.push(ov_osc);
+            outputs.insert(pos, ov_osc);
+            pos += 1;
         }
     }
 }
